@@ -13,6 +13,7 @@
 // (abort, sanitizer) is a violation.
 #include "vf.h"
 #include "xpair.h"
+#include <poll.h>
 
 #include <algorithm>
 #include <cstdarg>
@@ -127,6 +128,8 @@ struct Result {
     std::string names;
     bool fault_hit = false;
     bool unwound = false; // the fault hit after the same API call had already created a resource
+    bool fault2_hit = false;
+    std::string fault2_name;
     int sig = 0;
 };
 
@@ -137,7 +140,10 @@ struct Runner {
     Slot slots[6];
     int rep = 0;
     int fault_at = 0, fault_errno = 0;
+    int fault2_at = 0; bool fault2_skip_eventfd = false; // a second failing resource call (pairs)
     bool hit_seen = false, unwound = false;
+    bool fault2_hit = false;
+    std::string fault2_name;
     std::string uxf_foreign; // a socket file that belongs to somebody else
     Runner(const std::vector<Op> &p) : prog(p) {}
 
@@ -235,6 +241,21 @@ struct Runner {
             if (sl.s || !sv.s || !sv.server) return;
             struct xcm_socket *s = nullptr;
             int e = 0;
+            // a blocking accept (transports without a handshake of their own: the client end is
+            // driven by this same thread), only when the server reports a connection waiting
+            bool blk = (op.x % 4 != 0) && (sv.tp == 0 || sv.tp == 1 || sv.tp == 2 || sv.tp == 5);
+            if (blk) {
+                api(84, [&] { return xcm_await(sv.s, XCM_SO_ACCEPTABLE); });
+                struct pollfd pf = {xcm_fd(sv.s), POLLIN, 0};
+                if (poll(&pf, 1, 20) <= 0) blk = false;
+            }
+            if (blk && api(84, [&] { return xcm_set_blocking(sv.s, true); }) == 0) {
+                s = api(70 + op.a % 6, [&] { return xcm_accept(sv.s); });
+                e = errno;
+                log("#%d blocking accept(server slot %d) -> %s", idx, op.b % 6, s ? "ok" : errname(e));
+                api(84, [&] { return xcm_set_blocking(sv.s, false); });
+                if (s) api(84, [&] { return xcm_set_blocking(s, false); });
+            }
             for (int i = 0; i < 60 && !s; i++) {
                 s = api(70 + op.a % 6, [&] { return xcm_accept(sv.s); });
                 e = errno;
@@ -386,14 +407,17 @@ struct Runner {
     void repetition()
     {
         if (fault_at > 0) sh_fail_resource_at(fault_at, fault_errno);
+        if (fault2_at > 0) sh_fail_resource_at2(fault2_at, fault2_skip_eventfd);
         int i = 0;
         for (auto &op : prog) { do_op(op, i++); if (!viol.empty()) break; }
+        if (sh_resource_fault2_hit()) { fault2_hit = true; fault2_name = sh_resource_fault2_name(); }
         sh_fail_resource_at(0, 0);
+        sh_fail_resource_at2(0, 0);
         for (auto &sl : slots) close_slot(sl);
     }
 };
 
-Result run_child(const std::vector<Op> &prog, int fault_at, int fault_errno, int reps, std::string *trace_out, bool pending_variant)
+Result run_child(const std::vector<Op> &prog, int fault_at, int fault_errno, int reps, std::string *trace_out, bool pending_variant, int fault2_at = 0, bool fault2_skip_eventfd = false)
 {
     Result res;
     int pfd[2];
@@ -407,6 +431,8 @@ Result run_child(const std::vector<Op> &prog, int fault_at, int fault_errno, int
         Runner r(prog);
         r.fault_at = fault_at;
         r.fault_errno = fault_errno;
+        r.fault2_at = fault2_at;
+        r.fault2_skip_eventfd = fault2_skip_eventfd;
         // a socket file owned by somebody else must survive everything
         r.uxf_foreign = g_dir + "/foreign.sock";
         std::string start = fd_table();
@@ -439,7 +465,7 @@ Result run_child(const std::vector<Op> &prog, int fault_at, int fault_errno, int
             if (d1 > 0 && d2 > 0 && d3 > 0 && d2 == d3)
                 msg = "heap grows by " + std::to_string(d3) + " bytes per repetition although everything is closed (" + std::to_string(h[1]) + " " + std::to_string(h[2]) + " " + std::to_string(h[3]) + " " + std::to_string(h[4]) + ")";
         }
-        std::string out = std::to_string(msg.empty() ? 0 : 1) + "\n" + std::to_string(ncalls) + "\n" + names + "\n" + (r.hit_seen ? "1" : "0") + (r.unwound ? "1" : "0") + "\n" + msg + "\n" + r.trace;
+        std::string out = std::to_string(msg.empty() ? 0 : 1) + "\n" + std::to_string(ncalls) + "\n" + names + "\n" + (r.hit_seen ? "1" : "0") + (r.unwound ? "1" : "0") + (r.fault2_hit ? "1" : "0") + r.fault2_name + "\n" + msg + "\n" + r.trace;
         ssize_t wr = write(pfd[1], out.data(), out.size());
         (void)wr;
         _exit(0);
@@ -471,6 +497,8 @@ Result run_child(const std::vector<Op> &prog, int fault_at, int fault_errno, int
         std::string hu = line();
         res.fault_hit = hu.size() > 0 && hu[0] == '1';
         res.unwound = hu.size() > 1 && hu[1] == '1';
+        res.fault2_hit = hu.size() > 2 && hu[2] == '1';
+        res.fault2_name = hu.size() > 3 ? hu.substr(3) : "";
         std::string m = line();
         if (res.code == 0 && c0 == "1") { res.code = 1; res.msg = m; }
         if (trace_out) *trace_out = out.substr(p0);
@@ -480,7 +508,7 @@ Result run_child(const std::vector<Op> &prog, int fault_at, int fault_errno, int
 
 const std::vector<int> &errnos_for(const std::string &call)
 {
-    static const std::vector<int> sock = {EMFILE, ENOBUFS}, acc = {EMFILE, ECONNABORTED}, ep = {EMFILE, ENOMEM}, ev = {EMFILE}, tf = {EMFILE},
+    static const std::vector<int> sock = {EMFILE, ENOBUFS}, acc = {EMFILE, ECONNABORTED, EAGAIN}, ep = {EMFILE, ENOMEM}, ev = {EMFILE}, tf = {EMFILE},
                                   con = {ENETUNREACH, ECONNREFUSED}, bnd = {EADDRINUSE, EACCES}, lis = {EADDRINUSE}, fo = {ENOENT, EMFILE}, other = {EMFILE};
     if (call == "socket") return sock;
     if (call == "accept4") return acc;
@@ -523,7 +551,20 @@ public:
         int tp0 = (int)(tsel % 7);
         prog.push_back({O_SERVER, tp0, 0, 0, 0});
         int nslots = 1;
-        for (auto &st : p.steps) {
+        // Short plans are padded with steps derived from the configuration words: programs long enough
+        // to get as far as accepted connections even at the small sizes the first cases of a run have
+        bool pending_variant = cfg.ch(8) == 0;
+        uint32_t pad = cfg.raw();
+        std::vector<std::vector<uint32_t>> steps = p.steps;
+        if (pad != 0) {
+            size_t want = 5 + pad % 8;
+            for (uint32_t i = 0; steps.size() < want; i++) {
+                std::vector<uint32_t> st;
+                for (uint32_t j = 0; j < 6; j++) st.push_back(mix32(pad + i * 7919u, tsel + j * 104729u));
+                steps.push_back(st);
+            }
+        }
+        for (auto &st : steps) {
             Dec d(st);
             uint32_t k = d.ch(100);
             Op op;
@@ -539,7 +580,6 @@ public:
             prog.push_back(op);
             nslots++;
         }
-        bool pending_variant = cfg.ch(8) == 0;
         if (pending_variant) {
             // a connection attempt pending across fork + cleanup
             Op pc; pc.k = O_PENDING_CONNECT; pc.a = 5; pc.b = 0; pc.x = 0; pc.tp = (int)(tsel >> 3);
@@ -564,6 +604,7 @@ public:
         c.trace += trace;
         VF_CHECK(base.code == 0, "C08 (no fault injected): %s", base.msg.c_str());
         c.log("fault-free: %d resource-creating calls: %s", base.ncalls, base.names.c_str());
+        if (trace.find("blocking accept(") != std::string::npos) c.cls("blocking-accept");
         count("programs");
         // ---- every resource-creating call x every plausible errno
         std::vector<std::string> names;
@@ -588,6 +629,26 @@ public:
                     c.trace += "== with " + names[i] + " (resource call #" + std::to_string(i + 1) + ") failing with " + errname(e) + ":\n" + tr;
                     return failf("C08: [%s #%zu = %s] %s", names[i].c_str(), i + 1, errname(e), r.msg.c_str());
                 }
+            }
+        }
+        // ---- pairs: a second resource-creating call fails in the same run (sampled per program;
+        // the position of the second is relative to the run as it goes after the first fault)
+        long npairs = getenv("VF_C08_PAIRS") ? atol(getenv("VF_C08_PAIRS")) : 24;
+        bool skip_ev = excluded("eventfd-failure-aborts");
+        for (long q = 0; q < npairs && !names.empty() && !pending_variant; q++) {
+            uint32_t h = mix32((uint32_t)q * 2654435761u + 17, tsel ^ pad);
+            size_t i = h % names.size();
+            if (names[i] == "eventfd" && skip_ev) { count_exclusion("eventfd-failure-aborts"); continue; }
+            const std::vector<int> &es = errnos_for(names[i]);
+            int e1 = es[(h >> 8) % es.size()];
+            int j = (int)i + 2 + (int)((h >> 12) % 12);
+            std::string tr;
+            Result r = run_child(prog, (int)i + 1, e1, 3, &tr, false, j, skip_ev);
+            count("pair_runs");
+            if (r.fault_hit && r.fault2_hit) { count("pairs_both_hit"); nt = true; c.cls("fault-pair:" + names[i] + "+" + r.fault2_name); }
+            if (r.code != 0) {
+                c.trace += "== with " + names[i] + " (resource call #" + std::to_string(i + 1) + ") failing with " + errname(e1) + " and resource call #" + std::to_string(j) + " of that run failing too:\n" + tr;
+                return failf("C08: [%s #%zu = %s, then %s (resource call #%d of that run) failing too] %s", names[i].c_str(), i + 1, errname(e1), r.fault2_name.empty() ? "?" : r.fault2_name.c_str(), j, r.msg.c_str());
             }
         }
         c.nt(nt);
